@@ -327,8 +327,19 @@ func (r *Runner) hook(e *linter.VerifEvent) {
 				}
 			}
 		}
+		skipClear := true
+		var skipSet []string
+		if r.Oblig["c03"] {
+			if c := r.Set[e.Checker]; c != nil {
+				_, skipSet = SkipFlagsSet(c)
+				skipClear = len(skipSet) == 0
+			}
+		}
 		line := r.Tr.Emit(map[string]interface{}{"ev": "Walked", "c": e.Checker, "file": u.ID, "got": gd, "fresh": fd,
-			"fpSame": fpSame, "warnOK": warnOK})
+			"fpSame": fpSame, "warnOK": warnOK, "skipClear": skipClear})
+		if !skipClear {
+			r.nonconf(line, "SkipFlagLeft", e.Checker, u.ID, append([]string{"one-shot SkipChilds flag still set when the walk of the file ends:"}, skipSet...))
+		}
 		if gd != fd {
 			d := []string{"long-lived instance:"}
 			d = append(d, got...)
@@ -385,7 +396,14 @@ func (r *Runner) Visit(u *Unit) {
 	}
 	r.cur = u
 	r.Ctx.SetFileInfo(u.Base, u.File)
-	r.Tr.Emit(map[string]interface{}{"ev": "SetFile", "pkg": u.Pkg.Types.Path(), "file": u.ID})
+	ctxOK, why := true, ""
+	if r.Oblig["c03"] {
+		ctxOK, why = ContextImportTablesOK(r.Ctx, u.Pkg.TypesInfo, u.File)
+	}
+	line := r.Tr.Emit(map[string]interface{}{"ev": "SetFile", "pkg": u.Pkg.Types.Path(), "file": u.ID, "ctxOK": ctxOK})
+	if !ctxOK {
+		r.nonconf(line, "StaleContext", "", u.ID, []string{why})
+	}
 	r.ctxFP = CtxFP(r.Ctx)
 }
 
